@@ -920,6 +920,31 @@ fn adapter_facts(rep: &mut Report, rng: &mut Rng, thorough: bool, sources: &[Str
         }
         cp += step;
     }
+    // premises of the corrected idempotence / case statements (Proofs/Idna_C10b_Stmt.v): no ASCII character is a
+    // combining mark (AsciiNoMark); the characters of a pass-through label have the bidi classes under which the bidi
+    // rule accepts every such label (PassBidi: a-z can start, continue and end an LTR label and are not NSM, 0-9 can
+    // continue and end one, '-' can continue one)
+    {
+        let ad = idna_adapter::Adapter::new();
+        for c in 0u8..128 {
+            let ch = c as char;
+            let req = format!("adapter ok_ascii_nomark {:x}", c);
+            rep.case("adapter", &req, "1", if !ad.is_mark(ch) { "1" } else { "0" }, true, "adapter|ok_ascii_nomark");
+            let need: u32 = if ch.is_ascii_lowercase() {
+                0b101011
+            } else if ch.is_ascii_digit() {
+                0b101000
+            } else if ch == '-' {
+                0b100000
+            } else {
+                continue;
+            };
+            let bits = u32::from_str_radix(&oracle("bc", &hexl([c as u32])), 16).unwrap_or(0);
+            let holds = bits & need == need && bits & 0b100 == 0;
+            let req = format!("adapter ok_pass_bidi {:x}", c);
+            rep.case("adapter", &req, "1", if holds { "1" } else { "0" }, true, "adapter|ok_pass_bidi");
+        }
+    }
     let mut n = 0u64;
     for t in &texts {
         for (fact, holds) in adapter_fact_checks(t) {
@@ -929,7 +954,7 @@ fn adapter_facts(rep: &mut Report, rng: &mut Rng, thorough: bool, sources: &[Str
         }
     }
     rep.notes.push(format!(
-        "adapter premises sampled on the real idna_adapter: {} texts, {} fact instances (nvnotrunc, adapternp, ok_ascii, ok_case, ok_stable, ok_mn_idem, ok_fffd, ok_nv_idem; H0 = the empty text is among them)",
+        "adapter premises sampled on the real idna_adapter: {} texts, {} fact instances (nvnotrunc, adapternp, ok_ascii, ok_case, ok_stable, ok_mn_idem, ok_fffd, ok_nv_idem, and on the 128 ASCII characters ok_ascii_nomark, ok_pass_bidi; H0 = the empty text is among them)",
         texts.len(),
         n
     ));
@@ -1100,7 +1125,7 @@ fn prop_c10(b: &[u8], rng: &mut Rng) -> Option<String> {
                     if borrowed && r.as_bytes() != b {
                         return Some(format!("to_ascii({},{},{}): borrowed result differs from the input", d, h, n));
                     }
-                    if !known12(b, d, h) && !known10_long(&r) {
+                    if !known10_long(&r) {
                         match Uts46::new().to_ascii(r.as_bytes(), deny_of(d), hy_of(h), dns_of(n)) {
                             Ok(r2) if r2 == r => {}
                             other => return Some(format!("to_ascii({},{},{}) = {:?} is not a fixed point: {:?}", d, h, n, r, other.map(|c| c.into_owned()).ok())),
